@@ -64,13 +64,13 @@ func mkTxMd(m txmdRec, k int) *store.TxMetadata {
 		n = 1
 	case "mid":
 		n = 2 + int(vh.Bytes(seed, "extralen", k, 1)[0])%253
+	case "len255":
+		n = 255
 	case "len256":
 		n = 256
 	}
 	if n > 0 {
-		if err := md.WithExtra(vh.Bytes(seed, "extra", k, n)); err != nil {
-			vh.Fatalf("WithExtra(%d): %v", n, err)
-		}
+		step("store.TxMetadata.WithExtra", "encode", "txmd.extra", m.Extra, 10*time.Second, m, func() error { return md.WithExtra(vh.Bytes(seed, "extra", k, n)) })
 	}
 	return md
 }
